@@ -1,11 +1,55 @@
-from jsim.envs.base import Adapter
+"""Minesweeper: rules written from docs/environments/minesweeper.md and the class docstring.
+
+Board of num_rows x num_cols; -1 = not yet explored, otherwise the number of mines in the 8 adjacent
+squares. num_mines mines lie on distinct squares (state.flat_mine_locations, row-major flat indices).
+An action [row, col] explores one square and reveals only that square. Exploring an already explored
+square is the invalid action. Reward (default): 1 for exploring a new square without a mine, 0 for a
+mine and 0 for an invalid action. The episode ends when a mine is explored, on an invalid action, or
+when the board is solved (every square without a mine explored).
+"""
+from __future__ import annotations
+
+from typing import Any, Optional, Tuple
+
+import numpy as np
+
 from jsim.envs._mk import cfg
+from jsim.envs.base import Adapter
+
+
+def mine_grid(s: Any) -> np.ndarray:
+    b = np.asarray(s.board)
+    g = np.zeros(b.size, dtype=bool)
+    loc = np.asarray(s.flat_mine_locations).reshape(-1)
+    g[loc[(loc >= 0) & (loc < b.size)]] = True
+    return g.reshape(b.shape)
+
+
+def neighbours(mines: np.ndarray, r: int, c: int) -> int:
+    R, C = mines.shape
+    n = 0
+    for dr in (-1, 0, 1):
+        for dc in (-1, 0, 1):
+            if (dr or dc) and 0 <= r + dr < R and 0 <= c + dc < C and mines[r + dr, c + dc]:
+                n += 1
+    return n
+
+
+def is_solved(board: np.ndarray, mines: np.ndarray) -> bool:
+    return bool((np.asarray(board)[~mines] != -1).all())
 
 
 class A(Adapter):
     name = "Minesweeper"
     mask_mode = "joint"
     terminate_on_invalid = True
+    has_reaction = True
+    has_invalid_effect = True
+    has_physical = True
+    has_objective = True
+    objective_without_end = True  # +1 per safe square at every prefix of an episode
+    has_model = True
+    has_observer = True
 
     def configs(self):
         return [cfg("r10c10m10", True, r=10, c=10, m=10), cfg("r3c5m2", True, r=3, c=5, m=2), cfg("r6c4m5", r=6, c=4, m=5), cfg("r2c2m1", r=2, c=2, m=1)]
@@ -17,3 +61,150 @@ class A(Adapter):
 
     def horizon(self, env, c):
         return c["r"] * c["c"] - c["m"]
+
+    # ---- C04 -------------------------------------------------------------------------------------
+    def legal(self, s: Any, env: Any) -> np.ndarray:
+        return np.asarray(s.board) == -1  # "valid (not yet explored squares)"; a hidden mine is a legal, fatal, move
+
+    def describe(self, s, env, idx):
+        r, c = int(idx[0]), int(idx[1])
+        return f"square {(r, c)} shows {int(np.asarray(s.board)[r, c])}, mine={bool(mine_grid(s)[r, c])}"
+
+    def reaction_invalid(self, ps, action, agent, s, ts, env, cfg):
+        r, c = int(action[0]), int(action[1])
+        last = int(ts.step_type) == 2
+        rew = float(ts.reward)
+        if np.asarray(ps.board)[r, c] == -1 and mine_grid(ps)[r, c]:
+            return None  # exploring a mine and an invalid action both give LAST with reward 0: cannot be told apart
+        # otherwise a move accepted as valid earns 1; the invalid signature is LAST with reward 0
+        return bool(last and rew == 0.0)
+
+    # ---- C05 -------------------------------------------------------------------------------------
+    def invalid_effect(self, ps, action, illegal, s, ts, env, cfg):
+        r, c = int(action[0]), int(action[1])
+        if int(ts.step_type) != 2:
+            return ("invalid_move_not_terminal", f"step_type {int(ts.step_type)} after exploring the already explored square {(r, c)}")
+        if float(ts.reward) != 0.0:
+            return ("invalid_move_reward", f"reward {float(ts.reward)} != 0 for the already explored square {(r, c)}")
+        if float(ts.discount) != 0.0:
+            return ("invalid_move_discount", f"discount {float(ts.discount)} != 0 on the terminal step")
+        return None
+
+    # ---- C07 -------------------------------------------------------------------------------------
+    def physical(self, ps, action, s, ts, env, cfg):
+        b = np.asarray(s.board)
+        R, C, M = cfg["r"], cfg["c"], cfg["m"]
+        if b.shape != (R, C):
+            return ("board_shape", f"board shape {b.shape} for a {R}x{C} game")
+        loc = np.asarray(s.flat_mine_locations).reshape(-1)
+        if len(loc) != M:
+            return ("mine_count", f"{len(loc)} mine locations, num_mines={M}")
+        if ((loc < 0) | (loc >= R * C)).any():
+            return ("mine_outside_board", f"mine locations {loc.tolist()} outside 0..{R * C - 1}")
+        if len(np.unique(loc)) != M:
+            return ("mines_not_distinct", f"mine locations {loc.tolist()} are not {M} distinct squares")
+        if ps is not None and not np.array_equal(loc, np.asarray(ps.flat_mine_locations).reshape(-1)):
+            return ("mines_moved", f"mine locations {np.asarray(ps.flat_mine_locations).tolist()} -> {loc.tolist()}")
+        mines = mine_grid(s)
+        for r, c in np.argwhere(b != -1):
+            r, c = int(r), int(c)
+            want = neighbours(mines, r, c)
+            if int(b[r, c]) != want:
+                return ("revealed_count_wrong", f"square {(r, c)} shows {int(b[r, c])} but has {want} adjacent mines (mines at {sorted(loc.tolist())})")
+            if mines[r, c]:
+                return ("explored_mine_but_episode_continues", f"square {(r, c)} holds a mine and is explored in a state from which the episode continues")
+        if ps is None and (b != -1).any():
+            return ("initial_board_not_hidden", f"{int((b != -1).sum())} squares are explored at reset")
+        return None
+
+    # ---- C08 -------------------------------------------------------------------------------------
+    def objective(self, hist, env, cfg):
+        s = hist[-1].state
+        b = np.asarray(s.board)
+        return float(((b != -1) & ~mine_grid(s)).sum())  # safe squares revealed (the step that hits a mine earns 0)
+
+    # ---- C09 -------------------------------------------------------------------------------------
+    def model_step(self, ps, action, s, ts, env, cfg):
+        r, c = int(action[0]), int(action[1])
+        pb, nb = np.asarray(ps.board), np.asarray(s.board)
+        mines = mine_grid(ps)
+        valid = pb[r, c] == -1
+        if not valid:
+            want_r, done, why = 0.0, True, "already explored square"
+        elif mines[r, c]:
+            want_r, done, why = 0.0, True, "mine"
+        else:
+            want_b = pb.copy()
+            want_b[r, c] = neighbours(mines, r, c)
+            done = is_solved(want_b, mines)
+            want_r, why = 1.0, "safe square"
+            if not np.array_equal(nb, want_b):
+                d = np.argwhere(nb != want_b)[0].tolist()
+                return ("board", f"exploring the safe square {(r, c)}: cell {d} is {int(nb[tuple(d)])}, the rules give {int(want_b[tuple(d)])}")
+        if valid and mines[r, c]:
+            # only the explored square may change ("reveals only the contents of that square"); what a mine square shows
+            # afterwards is not documented
+            other = np.ones_like(pb, dtype=bool)
+            other[r, c] = False
+            if not np.array_equal(nb[other], pb[other]):
+                return ("board_after_mine", f"exploring the mine at {(r, c)} changed other squares")
+        if valid:
+            if not np.array_equal(np.asarray(s.flat_mine_locations), np.asarray(ps.flat_mine_locations)):
+                return ("mines_moved", "flat_mine_locations changed across a step")
+            if int(s.step_count) != int(ps.step_count) + 1:
+                return ("step_count", f"step_count {int(s.step_count)} expected {int(ps.step_count) + 1}")
+        # after an invalid action only reward and termination are specified
+        if not np.isclose(float(ts.reward), want_r, rtol=1e-5, atol=1e-6):
+            return ("reward", f"reward {float(ts.reward)} expected {want_r} for exploring {(r, c)} ({why})")
+        if (int(ts.step_type) == 2) != done:
+            return ("termination", f"step_type {int(ts.step_type)} but the rules say done={done} after exploring {(r, c)} ({why})")
+        want_disc = 0.0 if done else 1.0
+        if float(ts.discount) != want_disc:
+            return ("discount", f"discount {float(ts.discount)} expected {want_disc}")
+        return None
+
+    # ---- C11 (structural horizon only; kept for completeness) ------------------------------------
+    def end_cause(self, ps, action, s, ts, env, cfg):
+        r, c = int(action[0]), int(action[1])
+        if np.asarray(ps.board)[r, c] != -1:
+            return "invalid_action"
+        if mine_grid(ps)[r, c]:
+            return "mine_explored"
+        if is_solved(np.asarray(s.board), mine_grid(s)):
+            return "solved"
+        return None
+
+    # ---- C12 -------------------------------------------------------------------------------------
+    def observe(self, s, obs, env, cfg):
+        b, ob = np.asarray(s.board), np.asarray(obs.board)
+        if b.shape != ob.shape or not np.array_equal(b, ob):
+            return ("board", "obs.board != state.board")
+        if not np.array_equal(np.asarray(obs.action_mask).astype(bool), b == -1):
+            d = np.argwhere(np.asarray(obs.action_mask).astype(bool) != (b == -1))[0].tolist()
+            return ("action_mask", f"action_mask at {d} is {bool(np.asarray(obs.action_mask)[tuple(d)])} but the board shows {int(b[tuple(d)])}")
+        n = len(np.asarray(s.flat_mine_locations).reshape(-1))
+        if int(obs.num_mines) != cfg["m"] or int(obs.num_mines) != n:
+            return ("num_mines", f"obs.num_mines {int(obs.num_mines)} vs configured {cfg['m']} / {n} mine locations in the state")
+        if int(obs.step_count) != int(s.step_count):
+            return ("step_count", f"obs {int(obs.step_count)} vs state {int(s.step_count)}")
+        return None
+
+    # ---- policies --------------------------------------------------------------------------------
+    @staticmethod
+    def _safe(s: Any) -> np.ndarray:
+        return np.argwhere((np.asarray(s.board) == -1) & ~mine_grid(s))
+
+    def policy_complete(self, s, env, rng, legal):
+        """Reveal only safe squares (hidden mine locations), in random order: reaches 'solved'."""
+        safe = self._safe(s)
+        if len(safe) == 0:
+            return None
+        r, c = safe[int(rng.integers(0, len(safe)))]
+        return [int(r), int(c)]
+
+    def policy_survive(self, s, env, rng, legal):
+        """Longest possible episode = every safe square, one per step (row-major order); it ends exactly at the horizon."""
+        safe = self._safe(s)
+        if len(safe) == 0:
+            return None
+        return [int(safe[0][0]), int(safe[0][1])]
